@@ -31,6 +31,9 @@ ASSUMPTIONS = ["CPython int semantics = Lean Int",
                "read_exons of an alignment are gapped (consecutive blocks separated by >= 1 reference base): C16's output invariant",
                "events name index ranges of the read introns (0 <= r0 <= r1 < #read introns) or carry the absent/undefined sentinels",
                "annotation: the assigned isoform lies inside the chromosome (1 <= start, end <= chromosome length)",
+               "AlignmentInfo.read_start/read_end are the ends of read_exons after the polyA/polyT-exon trimming, and params.delta is "
+               "the --delta given on the command line (glue outside the model: watched by the pipeline oracle with reads whose "
+               "polyT head / polyA tail is a separate terminal exon and with explicit --delta 0 / --delta 2 runs)",
                "no assumption on JunctionComparator / get_error_count is needed for BED validity any more: the validity gate "
                "added by the fix: commit is modelled and `corrected_always_valid` holds for every event list; the oracle still "
                "validates every BED record of the pipeline runs"]
@@ -587,7 +590,8 @@ def allowed_sites(read_exons, known_introns, iso_intron_lists, delta, flags):
     return left, right
 
 
-def property_problems(out, read_exons, known_introns, iso_exon_lists, delta, flags, check_valid=True, is_none=None):
+def property_problems(out, read_exons, known_introns, iso_exon_lists, delta, flags, check_valid=True, is_none=None,
+                      moved_copy_delta=None):
     """the clauses of C14 for one corrected alignment `out` of the input alignment `read_exons`
     -> list of (kind, detail)"""
     res = []
@@ -623,6 +627,23 @@ def property_problems(out, read_exons, known_introns, iso_exon_lists, delta, fla
             res.append(("site_provenance", "left splice site %d of corrected intron (%d,%d) is neither the read's nor annotated within tolerance" % (l, l, r)))
         if r not in right:
             res.append(("site_provenance", "right splice site %d of corrected intron (%d,%d) is neither the read's nor annotated within tolerance" % (r, l, r)))
+    if moved_copy_delta is not None and is_sd(out):
+        # pipeline outputs of strategies without intron-shift / terminal-exon correction: an intron of the corrected
+        # alignment that is a moved copy of a read intron (both ends within MOVED_COPY_WINDOW of it; inserted or
+        # restored isoform introns around a skipped exon / a retained micro-intron are not) must lie within the
+        # REQUESTED delta of that read intron at both ends
+        ri = introns_between(read_exons)
+        oi = introns_between(out)
+        for n in oi:
+            if n in ri:
+                continue
+            # a read intron replaced by two or more introns of the corrected alignment is a restoration (skipped
+            # micro-exon), not a moved copy: only 1-to-1 replacements are restricted by delta
+            near = [r_ for r_ in ri if abs(n[0] - r_[0]) <= MOVED_COPY_WINDOW and abs(n[1] - r_[1]) <= MOVED_COPY_WINDOW
+                    and sum(1 for m in oi if not (m[1] < r_[0] or m[0] > r_[1])) == 1]
+            if near and not any(abs(n[0] - r_[0]) <= moved_copy_delta and abs(n[1] - r_[1]) <= moved_copy_delta for r_ in near):
+                res.append(("site_beyond_delta", "corrected intron (%d,%d) is a moved copy of read intron %s but differs by more "
+                            "than the requested delta=%d" % (n[0], n[1], near[0], moved_copy_delta)))
     return res
 
 
@@ -744,6 +765,28 @@ def run_pipeline_case(ds_seed, delta, strategy, only_read=None, keep=None, datas
             shutil.rmtree(d, ignore_errors=True)
 
 
+def input_alignment(bam_exons, t, reported, polya_found):
+    """reading rule: the input alignment of a read is its BAM block list after IsoQuant's polyA/polyT-exon trimming
+    step (C16).  Decided independently of the corrector: the exon list that read_assignments.tsv reports is accepted as
+    the input only if it is the BAM block list itself, the BAM block list without the terminal exons that the
+    generator made of pure A / T, or (read reported PolyA=True) a contiguous sub-list of the BAM blocks."""
+    cands = [bam_exons]
+    h, tl = t.get("polyt_head_exons", 0), t.get("polya_tail_exons", 0)
+    if h and len(bam_exons) > h:
+        cands.append(bam_exons[h:])
+    if tl and len(bam_exons) > tl:
+        cands.append(bam_exons[:-tl])
+    if reported is None or reported in cands:
+        return reported if reported is not None else bam_exons
+    n = len(reported)
+    if polya_found and n >= 1 and any(reported == bam_exons[i:i + n] for i in range(len(bam_exons) - n + 1)):
+        return reported
+    return bam_exons
+
+
+MOVED_COPY_WINDOW = 12   # largest preset delta: an isoform intron this close to a read intron at both ends is a moved copy
+
+
 def check_pipeline_run(P, d, paths, ds, truth, delta, strategy, flags_by_strategy=None, data_type="nanopore"):
     outdir = os.path.join(d, "out_" + strategy)
     rc, log = P.run_isoquant(outdir, P.std_args(paths, data_type=data_type,
@@ -761,11 +804,17 @@ def check_pipeline_run(P, d, paths, ds, truth, delta, strategy, flags_by_strateg
     flags = (flags_by_strategy or strategy_flags())[strategy]
     iso_of = {}
     polya = {}
+    reported = {}
     for row in (P.read_assignments(tsvf[0]) if tsvf else []):
         if isinstance(row, dict) and row.get("isoform_id") not in (None, ".", ""):
             iso_of.setdefault(row["read_id"], []).append(row["isoform_id"])
         if isinstance(row, dict) and "PolyA=True" in row.get("additional_info", ""):
             polya[row["read_id"]] = True
+        if isinstance(row, dict) and row.get("exons"):
+            try:
+                reported.setdefault(row["read_id"], [tuple(int(x) for x in e.split("-")) for e in row["exons"].split(",")])
+            except ValueError:
+                pass
     tx = {tid: [tuple(e) for e in ex] for g in ds.genes for tid, ex in g["transcripts"]}
     known_by_chr = {}
     for g in ds.genes:
@@ -789,18 +838,17 @@ def check_pipeline_run(P, d, paths, ds, truth, delta, strategy, flags_by_strateg
         seen.add(name)
         if fields[0] != t["chr"]:
             fails.append(("wrong_chromosome", name, "%s, aligned to %s" % (fields[0], t["chr"])))
-        exons = [tuple(e) for e in t["exons"]]
+        bam_exons = [tuple(e) for e in t["exons"]]
+        exons = input_alignment(bam_exons, t, reported.get(name), polya.get(name))
+        if exons != bam_exons:
+            stats["trimmed"] = stats.get("trimmed", 0) + 1
         if [tuple(b) for b in blocks] != exons:
             stats["changed"] += 1
-        if strategy == "none" and polya.get(name):
-            # reading rule: the input alignment is the block list after the polyA-exon trimming step (C16)
-            n = len(blocks)
-            if any([tuple(b) for b in blocks] == exons[i:i + n] for i in range(len(exons) - n + 1)):
-                continue
         isos = [tx[i] for i in iso_of.get(name, []) if i in tx]
+        moved = None if (flags["intron_shifts"] or flags["terminal_exons"]) else delta
         for kind, detail in property_problems(blocks, exons, known_by_chr.get(t["chr"], set()), isos, delta, flags,
-                                              check_valid=False, is_none=(strategy == "none")):
-            fails.append((kind, name, detail + " | tags=%s iso=%s" % (t["tags"], iso_of.get(name))))
+                                              check_valid=False, is_none=(strategy == "none"), moved_copy_delta=moved):
+            fails.append((kind, name, detail + " | bam=%s tags=%s iso=%s" % (bam_exons, t["tags"], iso_of.get(name))))
     return fails, stats
 
 
@@ -968,22 +1016,26 @@ def oracle(ctx, disagreements, broken):
     flags_by = strategy_flags()
     plan = []
     base = ctx.seed % 100000
+    fuzzy3 = ["default_ont", "default_pacbio", "none"]
     if quick:
-        plan = [(base * 10 + 1, 6, "nanopore"), (base * 10 + 2, rng.choice([4, 12]), "nanopore"),
-                (base * 10 + 3, 4, "pacbio_ccs")]
+        plan = [(base * 10 + 1, 6, "nanopore", STRATEGIES), (base * 10 + 2, rng.choice([4, 12]), "nanopore", STRATEGIES),
+                (base * 10 + 3, 4, "pacbio_ccs", STRATEGIES),
+                # explicit boundary tolerances: --delta 0 (exact comparison) and --delta 2
+                (base * 10 + 4, 0, "nanopore", fuzzy3), (base * 10 + 5, 2, "pacbio_ccs", ["conservative_ont", "default_pacbio"])]
     else:
-        plan = [(base * 10 + k, d, ("pacbio_ccs" if k % 3 == 0 else "nanopore"))
-                for k, d in enumerate([6, 6, 6, 4, 4, 12, 12, 0, 2, 6, 8, 6, 6, 4, 6, 12, 1, 6, 3, 6, 6, 4, 6, 6], 1)]
-    pstats = {"runs": 0, "records": 0, "changed": 0}
-    for ds_seed, delta, dtype in plan:
+        plan = [(base * 10 + k, d, ("pacbio_ccs" if k % 3 == 0 else "nanopore"), STRATEGIES)
+                for k, d in enumerate([6, 6, 6, 4, 4, 12, 12, 0, 2, 6, 8, 6, 6, 4, 6, 12, 1, 6, 3, 6, 6, 4, 6, 6, 0, 0, 2, 2], 1)]
+    pstats = {"runs": 0, "records": 0, "changed": 0, "trimmed": 0}
+    for ds_seed, delta, dtype, strategies in plan:
         kw = {} if quick else {"n_genes": 7, "reads_per_iso": 14}
         ds, truth = G.noisy_dataset(ds_seed, delta=delta, **kw)
         d = P.scratch("isoverif_c14_")
         try:
             paths = ds.write(os.path.join(d, "data"))
-            for strat in STRATEGIES:
+            for strat in strategies:
                 fails, st = check_pipeline_run(P, d, paths, ds, truth, delta, strat, flags_by, data_type=dtype)
                 pstats["runs"] += 1
+                pstats["trimmed"] += st.get("trimmed", 0)
                 pstats["records"] += st["records"]
                 pstats["changed"] += st["changed"]
                 ctx.count("pipeline:%s:records" % strat, st["records"])
